@@ -414,6 +414,11 @@ def run(repo, chk, tier):
     clause_setbound(repo, chk)
     clause_g(repo, chk)
     bound_formulas(repo, chk)  # D-bound: the transform keeps a bounded parameter inside its limits (a limit of 0 included)
+    # the write-back of a minimiser and the loading of a result file go through set_all: every value is written (shared with C16)
+    from .c16 import clause_setall
+
+    clause_setall(repo, chk)
+    clause_stale_pair(repo, chk)
 
 
 # --------------------------------------------------------------------------- (a)
@@ -889,3 +894,67 @@ def clause_d(repo, chk):
     if not (flat and dumps):
         chk.violation("D-keys", sp.key, "flat", "save_params no longer writes the flat name->value mapping that set_params accepts (it dumps %s)" % (dumped[:1],), file=sp.mod.rel, line=sp.lineno)
     chk.require_count("D-keys", 3)
+
+
+# --------------------------------------------------------------------------- (stale pair)
+def clause_stale_pair(repo, chk):
+    """the emergency result pairs the model's parameters with the NLL the objective cached for its last evaluation:
+    nothing may move the parameters between that evaluation and the read"""
+    import ast
+
+    from ..model import parent_map
+
+    WRITES = {"set_trans_var", "set_all", "set_params", "set", "rp2xy_all", "xy2rp_all", "std_polar_all", "set_bound"}
+    chk.rule("R-stale", "every result built from the objective's cached value (fcn.cached_nll - except_result and any other reader in tf_pwa/fit.py) describes the point the model is left at: on the way to the read, after the last evaluation of the objective in the same block / handler, no statement moves the parameters (set_trans_var / set_all / set_params / set ...); a parameter write must be followed by a fresh evaluation before the cached value is reported")
+    mod = repo.mod(FIT)
+    def evaluates(node):
+        return any(isinstance(x, ast.Call) and ((isinstance(x.func, ast.Attribute) and (x.func.attr in FCN_EVAL_ATTRS or x.func.attr in OPT_CALLS)) or (isinstance(x.func, ast.Name) and x.func.id in OPT_CALLS)) for x in ast.walk(node))
+
+    # pure readers: they report the cached value and never evaluate the objective themselves
+    readers = {f.node.name for f in mod.funcs.values() if any(isinstance(n, ast.Attribute) and n.attr == "cached_nll" and isinstance(n.ctx, ast.Load) for n in ast.walk(f.node)) and not evaluates(f.node)}
+    # ... directly or through a helper that does (closure over calls by name)
+    changed = True
+    while changed:
+        changed = False
+        for f in mod.funcs.values():
+            if f.node.name not in readers and not evaluates(f.node) and any(isinstance(x, ast.Call) and isinstance(x.func, ast.Name) and x.func.id in readers for x in ast.walk(f.node)):
+                readers.add(f.node.name)
+                changed = True
+    if "except_result" not in readers:
+        raise AnalysisError("anchor vanished: except_result no longer reads fcn.cached_nll")
+    n_sites = 0
+    for f in mod.funcs.values():
+        pm = parent_map(f.node)
+        for c in ast.walk(f.node):
+            is_reader_call = isinstance(c, ast.Call) and isinstance(c.func, ast.Name) and c.func.id in readers
+            is_direct = isinstance(c, ast.Attribute) and c.attr == "cached_nll" and isinstance(c.ctx, ast.Load) and f.node.name not in ("except_result",)
+            if not (is_reader_call or is_direct):
+                continue
+            n_sites += 1
+            # the statement that holds the read, and the statements before it in its block
+            st = c
+            while st in pm and not isinstance(st, ast.stmt):
+                st = pm[st]
+            par = pm.get(st)
+            block = None
+            for field in ("body", "orelse", "finalbody"):
+                b = getattr(par, field, None)
+                if isinstance(b, list) and st in b:
+                    block = b
+            if block is None:
+                continue
+            hit = None
+            for prev in reversed(block[: block.index(st)]):
+                calls = [x for x in ast.walk(prev) if isinstance(x, ast.Call)]
+                if any((isinstance(x.func, ast.Attribute) and x.func.attr in FCN_EVAL_ATTRS) or (isinstance(x.func, ast.Name) and x.func.id in ("fcn", "f_g", "f")) for x in calls):
+                    break   # a fresh evaluation: the cached value belongs to the current point
+                w = [x for x in calls if isinstance(x.func, ast.Attribute) and x.func.attr in WRITES]
+                if w:
+                    hit = w[0]
+                    break
+            chk.instance("R-stale", "%s line %d: `%s` - parameters moved since the last evaluation in this block: %s" % (f.qual, c.lineno, norm_text(c)[:50], bool(hit)), nontrivial=True)
+            if hit is not None:
+                chk.violation("R-stale", f.key, "write-before-cached:%s" % hit.func.attr, "`%s` moves the parameters and `%s` then reports the objective's cached value of the previous point: the result lists the new parameters with the NLL of another point (the reported minimum is not the NLL at the reported values)" % (norm_text(hit)[:60], norm_text(c)[:50]), file=FIT, line=hit.lineno)
+    if n_sites < 1:
+        raise AnalysisError("R-stale: no reader of fcn.cached_nll found in tf_pwa/fit.py")
+    chk.require_count("R-stale", 1)
